@@ -217,9 +217,19 @@ class World:
             async def go():
                 conn = MemConnector(lambda req, idx: (self.peer, None, None))
                 self.session = aiohttp.ClientSession(connector=conn)
-                self.ws = await self.session.ws_connect(
-                    "http://host/ws", autoclose=cfg["autoclose"], autoping=cfg["autoping"], heartbeat=cfg["heartbeat"],
-                    timeout=ClientWSTimeout(ws_receive=cfg["recv_timeout"], ws_close=cfg["close_timeout"]), compress=15 if cfg.get("compress") else 0)
+                if cfg.get("legacy_receive_timeout"):
+                    # the deprecated spelling: receive_timeout= next to timeout=ClientWSTimeout(ws_close=...)
+                    import warnings
+
+                    with warnings.catch_warnings():
+                        warnings.simplefilter("ignore", DeprecationWarning)
+                        self.ws = await self.session.ws_connect(
+                            "http://host/ws", autoclose=cfg["autoclose"], autoping=cfg["autoping"], heartbeat=cfg["heartbeat"],
+                            timeout=ClientWSTimeout(ws_close=cfg["close_timeout"]), receive_timeout=cfg["recv_timeout"], compress=15 if cfg.get("compress") else 0)
+                else:
+                    self.ws = await self.session.ws_connect(
+                        "http://host/ws", autoclose=cfg["autoclose"], autoping=cfg["autoping"], heartbeat=cfg["heartbeat"],
+                        timeout=ClientWSTimeout(ws_receive=cfg["recv_timeout"], ws_close=cfg["close_timeout"]), compress=15 if cfg.get("compress") else 0)
                 self.our_t, self.peer_t = conn.transports[0]
 
             loop.drive(go(), max_time=50)
@@ -624,6 +634,7 @@ CONFIGS = [
     base_cfg("server", compress=True, exec_delay=2),
     base_cfg("client", write_stall=True),
     base_cfg("server", write_stall=True),
+    base_cfg("client", recv_timeout=3.0, legacy_receive_timeout=True),
 ]
 
 
